@@ -265,8 +265,8 @@ def fp_drpcstream_stream_Stream_rawFlushLocked : List String :=
     "case", "call:s.sigs.term.IsSet", "return", "call:s.sigs.term.Err", "call:s.log", "s:FLUSH", 
     "return", "s:", "return", "call:s.checkCancelError", "call:errs.Wrap", "call:s.wr.Flush"]
 def fp_drpcstream_stream_Stream_checkRecvFlush : List String :=
-  ["call:s.flush.Do", "call:s.RawFlush", "if", "!=", "return", "if", "&&", "u!", "call:s.wr.Empty", 
-    "if", "call:s.RawFlush", "!=", "return", "return"]
+  ["call:s.flush.Do", "call:s.RawFlush", "if", "&&", "&&", "==", "u!", "call:s.wr.Empty", "call:s.RawFlush", 
+    "if", "&&", "!=", "call:s.sigs.term.IsSet", "return", "return"]
 def fp_drpcstream_stream_Stream_RawRecv : List String :=
   ["if", "call:s.checkRecvFlush", "!=", "return", "defer", "call:s.checkFinished", "call:s.read.Lock", 
     "defer", "call:s.read.Unlock", "call:s.pbuf.Get", "if", "!=", "return", "call:append", "call:[]byte", 
@@ -490,7 +490,8 @@ def fp_drpcmigrate_prefixconn_prefixConn_Read : List String :=
   ["return", "call:pc.Reader.Read"]
 def fp_drpcmigrate_header_HeaderConn_Write : List String :=
   ["call:d.once.Do", "call:d.Conn.Write", "call:append", "call:[]byte", "if", "-=", "call:len", 
-    "if", "<", "0", "0", "return", "return", "call:d.Conn.Write"]
+    "if", "<", "0", "0", "return", "call:d.Conn.Write", "call:append", "call:[]byte", "-=", "call:len", 
+    "if", "<", "0", "0", "return"]
 def fp_drpcctx_tracker_Tracker_Run : List String :=
   ["call:t.wg.Add", "1", "go", "call:t.track"]
 def fp_drpcctx_tracker_Tracker_track : List String :=
